@@ -227,6 +227,25 @@ def stack_filters(crate, crs=()):
             has_contains = _negated_return(b, i)
     if has_value_filter and has_contains:
         return True, True
+    # a closure that answers with an Option (`filter_map`, possibly through a helper the inliner spliced in): `Some(..)` is produced
+    # only behind the true edge of `decision.value` and the false edge of `contains`
+    for b in cl:
+        somes = [i for i, j, s in b.assigns() if s["r"]["k"] == "agg" and s["r"].get("adt") == "std::option::Option" and
+                 s["r"].get("variant") == "Some" and "VariableId" in b.local_ty(s["p"]["l"]) and "ClauseId" in b.local_ty(s["p"]["l"])]
+        if not somes:
+            continue
+        cs = q.conds(b, crs)
+        contains_bbs = {i for i, t in q.calls_on_field(b, "std::collections::HashSet::contains", STATE_ADT, "clauses_added_for_solvable")}
+        v_edges = [(c.bb, c.edges[True]) for c in cs if c.kind == "bool" and c.edges.get(True) is not None and any(
+            isinstance(e, dict) and e.get("n") == "value" and e.get("of") == "resolvo::solver::decision::Decision" for e in (c.src or {}).get("proj", []))]
+        c_edges = [(c.bb, c.edges[False]) for c in cs if c.kind == "bool" and c.edges.get(False) is not None and
+                   (c.src or {}).get("k") == "call" and (c.src or {}).get("bb") in contains_bbs and not (c.src or {}).get("proj")]
+        if not has_value_filter:
+            has_value_filter = bool(v_edges) and all(q.only_via_edges(b, v_edges, i) for i in somes)
+        if not has_contains:
+            has_contains = bool(c_edges) and all(q.only_via_edges(b, c_edges, i) for i in somes)
+    if has_value_filter and has_contains:
+        return True, True
     b = body_by_key(crate, root)
     if b is None:
         return has_value_filter, has_contains
@@ -276,7 +295,9 @@ def encode_inputs(ctx, crate, crs, tag):
                                                                               "last", "next_back", "rposition", "split_off", "truncate"})
             ctx.ob(R, b.key, "scans-the-whole-trail", not bad_ad, where_call(b, i),
                    "newly selected solvables are looked for on the complete decision stack%s" % ((" (uses %s)" % ", ".join(bad_ad)) if bad_ad else ""))
-            allowed = {"field:state.decision_tracker", "field:state.clauses_added_for_solvable", "field:state.variable_map"}
+            # (`field:state`: a closure over the stack that was handed `&self.state` as a whole - what it does with it is judged by
+            # the two filter obligations above)
+            allowed = {"field:state.decision_tracker", "field:state.clauses_added_for_solvable", "field:state.variable_map", "field:state"}
             ok = "field:state.decision_tracker" in flds and flds <= allowed and not args and not unk
             ctx.ob(R, b.key, "later-encodes-only-decided-solvables", ok, where_call(b, i),
                    "after a partial solution only solvables from the decision stack are encoded (reads: %s)" % ", ".join(sorted(flds | args | unk)))
